@@ -1,6 +1,6 @@
 use crate::fn_timeline::{expand_timeline_or_merge, TimelineOrMergeConfig};
 use proc_macro::TokenStream;
-use proc_macro2::TokenStream as TokenStream2;
+use proc_macro2::{Ident, Span, TokenStream as TokenStream2};
 use quote::quote;
 use syn::{
     braced, parenthesized,
@@ -47,12 +47,13 @@ fn expand_animator(input: AnimatorInput) -> Result<TokenStream2> {
             state_assignments.push(quote! { .on(#state, #timeline) })
         }
     }
+    let default_values = default_values_ident();
     let anim = quote! {
         {
-            let default_values = #default_values_assignment;
+            let #default_values = #default_values_assignment;
             ::mina::StateAnimatorBuilder::new()
                 #default_state_assignment
-                .from_values(default_values.clone())
+                .from_values(#default_values.clone())
                 #(#state_assignments)*
                 .build()
         }
@@ -60,10 +61,18 @@ fn expand_animator(input: AnimatorInput) -> Result<TokenStream2> {
     Ok(anim)
 }
 
+/// Name of the local variable holding the animator's default values. It is referenced by the
+/// `default` keyframes of the timelines in the same expansion, and must not capture (or be captured
+/// by) a variable of the caller that happens to have the same name.
+pub(crate) fn default_values_ident() -> Ident {
+    Ident::new("default_values", Span::mixed_site())
+}
+
 fn inline_defaults(
     name: &Path,
     field_values: &Punctuated<FieldValue, Token![,]>,
 ) -> Result<TokenStream2> {
+    let default_values = default_values_ident();
     let assignments = field_values
         .iter()
         .map(|fv| {
@@ -71,14 +80,14 @@ fn inline_defaults(
                 return Err(Error::new(fv.span(), "Animator macro only supports named fields."));
             };
             let expr = &fv.expr;
-            Ok(quote! { default_values.#field_name = #expr })
+            Ok(quote! { #default_values.#field_name = #expr })
         })
         .collect::<Result<Vec<_>>>()?;
     Ok(quote! {
         {
-            let mut default_values = #name::default();
+            let mut #default_values = #name::default();
             #(#assignments);*;
-            default_values
+            #default_values
         }
     })
 }
